@@ -567,6 +567,20 @@ func (e *specEnv) evalCall(n ECall) Val {
 			t = e.st.x.funcTerm(e.st, v)
 		}
 		return Val{S: sEq(t, fn), Sort: "Bool"}
+	case "fresh":
+		// fresh(x): the slice/pointer x refers to memory allocated during this call (nothing that existed at
+		// entry, such as a pooled or cached buffer, is handed on)
+		v := e.eval(n.Args[0])
+		if e.st == nil {
+			e.fail("fresh() without state")
+		}
+		r := v.S
+		if v.Sort == "Slice" {
+			r = "(sarr " + v.S + ")"
+		} else if v.Sort == "Iface" {
+			r = "(iref " + v.S + ")"
+		}
+		return Val{S: "(> " + r + " " + e.st.x.initAlloc + ")", Sort: "Bool"}
 	case "cast":
 		// cast(x, T): view a reference (pointer, interface payload or ghost ref) as *T, T a struct type name
 		v := e.eval(n.Args[0])
